@@ -2,7 +2,7 @@
 From Coq Require Import String List ZArith Bool Arith.
 From PV Require Import Xnum Select PyLib Select_proofs Loop Loop_proofs Skeleton Skeleton_proofs ElitLang.
 From PVGen Require Import Algos Expected GenSelect ElitProgs.
-From PVBridge Require Import AlgoBridge SelectBridge C16Main ElitMain ElitProgBridge.
+From PVBridge Require Import AlgoBridge SelectBridge C16Main ElitMain ElitExample ElitProgBridge.
 
 (* the optimizers pinned as structurally elitist are still elitist in the skeletons regenerated from the source *)
 Theorem C17_pinned_set : forall n, In n pinned_elitist ->
@@ -57,3 +57,13 @@ Print Assumptions C17_pinned_set.
 Print Assumptions C17_greedy_regenerated.
 Print Assumptions C17_monotone.
 Print Assumptions C17_reported.
+
+(* non-vacuity: an agent type without NaN costs, a step that improves every slot, P = 3 and a skeleton picked from the REGENERATED all_skeletons (elitist, every write
+   size-known, a `WMap true` write in its step) meet EVERY hypothesis of the trajectory theorems; the trajectory from [5; 2; 2] is what the step computes *)
+Theorem C17_hypotheses_satisfiable :
+  (forall a, el_cost (el_copy a) = el_cost a) /\ (forall l : list elA, costs_ok elA el_cost l) /\ 1 <= 3 /\
+  exists sk, In sk all_skeletons /\ elitist sk = true /\ forallb size_known (sk_step sk) = true /\
+             step_conforms elA el_cost el_copy 3 unit el_step sk /\
+             pop_at elA unit el_step tt (5 :: 2 :: 2 :: nil)%Z 2 = (3 :: 0 :: 0 :: nil)%Z.
+Proof. exact elit_hypotheses_satisfiable. Qed.
+Print Assumptions C17_hypotheses_satisfiable.
